@@ -25,6 +25,7 @@ import (
 // ops (grammar also at the top of lean/Thanos/Driver/Misc.lean):
 //   rl.expand <tol> <env> <hextext>                     -> ok <hex> | unset <hexname>      (Reloader.expandEnv via hook)
 //   rl.run <conf> <step>{|<step>}                       -> <answer>{|<answer>}             (a history of Reloader.apply calls via hook)
+//   o.rl.watch <edits> <seed>                           -> ok | <class>                    (the real Watch loop, oracle only)
 //     conf   = hasCfg.hasOut.tolerate.watchZero.nDirs.hasWatched
 //     step   = cfg~dirs~watched~env~script
 //     cfg    = x (missing) | file          dirs = dir{/dir} | -      dir = file{,file} | e (empty dir)
@@ -209,8 +210,110 @@ func execC47(c *hlib.Ctx, tok []string) string {
 		return c47ExecExpand(c, tok)
 	case "rl.run":
 		return c47ExecRun(c, tok)
+	case "o.rl.watch":
+		return c47ExecWatch(c, tok)
 	}
 	return "bad-op"
+}
+
+// c47ExecWatch drives the real Watch loop (oracle only): o.rl.watch <edits> <seed>.
+// A config file (with output file) and a watched directory with a sub-directory.  Edits of the
+// config file reach the loop through fsnotify; edits of w/sub/x are invisible to fsnotify (it does
+// not watch recursively) but are hashed by apply, so only the watch-interval tick can pick them
+// up.  After every edit a reload request (and, for the config file, the new output) must follow.
+func c47ExecWatch(c *hlib.Ctx, tok []string) string {
+	if len(tok) != 3 {
+		return "bad-op"
+	}
+	edits, e1 := strconv.Atoi(tok[1])
+	seed, e2 := strconv.Atoi(tok[2])
+	if e1 != nil || e2 != nil || edits < 1 || edits > 50 {
+		return "bad-op"
+	}
+	rnd := hlib.NewRand(uint64(seed) + 77)
+	root, err := os.MkdirTemp("", "verif-c47w-")
+	if err != nil {
+		return "bad-op"
+	}
+	defer os.RemoveAll(root)
+	defer c47SetEnv(nil)
+	c47SetEnv(map[string]string{"VERIF_A": "va"})
+	cfg, out := filepath.Join(root, "cfg"), filepath.Join(root, "cfg.out")
+	wdir := filepath.Join(root, "w")
+	sub := filepath.Join(wdir, "sub")
+	if os.MkdirAll(sub, 0o755) != nil || os.WriteFile(cfg, []byte("v0 $(VERIF_A)"), 0o644) != nil ||
+		os.WriteFile(filepath.Join(sub, "x"), []byte("x0"), 0o644) != nil {
+		return "bad-op"
+	}
+	srv := c47Server()
+	srv.mu.Lock()
+	srv.script, srv.requests, srv.cancel = make([]bool, 100000), 0, nil
+	for i := range srv.script {
+		srv.script[i] = true
+	}
+	srv.mu.Unlock()
+	requests := func() int { srv.mu.Lock(); defer srv.mu.Unlock(); return srv.requests }
+	interval := 150 * time.Millisecond
+	r := reloader.New(nil, nil, &reloader.Options{ReloadURL: srv.url, CfgFile: cfg, CfgOutputFile: out,
+		WatchedDirs: []string{wdir}, WatchInterval: interval, RetryInterval: 5 * time.Millisecond, DelayInterval: time.Millisecond})
+	ctx, cancel := context.WithCancel(context.Background())
+	done := make(chan error, 1)
+	go func() { done <- r.Watch(ctx) }()
+	waitFor := func(cond func() bool) bool {
+		deadline := time.Now().Add(8 * time.Second)
+		for !cond() {
+			if time.Now().After(deadline) {
+				return false
+			}
+			time.Sleep(2 * time.Millisecond)
+		}
+		return true
+	}
+	res := "ok"
+	fail := func(class, what string) {
+		c.Violation(class, what)
+		res = class
+	}
+	if !waitFor(func() bool { return requests() >= 1 }) {
+		fail("watch-initial-apply-missing", "Watch did not apply and reload the initial configuration")
+	}
+	for k := 1; k <= edits && res == "ok"; k++ {
+		before := requests()
+		if rnd.Bool() {
+			want := fmt.Sprintf("v%d va", k)
+			if os.WriteFile(cfg, []byte(fmt.Sprintf("v%d $(VERIF_A)", k)), 0o644) != nil {
+				return "bad-op"
+			}
+			c.Count("watch:edit-config(fsnotify)")
+			if !waitFor(func() bool { b, _ := os.ReadFile(out); return requests() > before && string(b) == want }) {
+				fail("change-not-applied", fmt.Sprintf("edit %d of the config file was not followed by the new output and a reload", k))
+			}
+		} else {
+			if os.WriteFile(filepath.Join(sub, "x"), []byte(fmt.Sprintf("x%d", k)), 0o644) != nil {
+				return "bad-op"
+			}
+			c.Count("watch:edit-unwatched-subdir(tick)")
+			if !waitFor(func() bool { return requests() > before }) {
+				fail("change-not-applied", fmt.Sprintf("edit %d below a watched directory (no file-system event) was not followed by a reload", k))
+			}
+		}
+	}
+	// quiescence: without changes the loop keeps applying on every tick but asks for no reload
+	if res == "ok" {
+		time.Sleep(interval) // let an apply that was running when the last edit landed finish
+		before := requests()
+		time.Sleep(3 * interval)
+		if requests() != before {
+			fail("spurious-reload", "reload requested although nothing changed")
+		}
+	}
+	cancel()
+	select {
+	case <-done:
+	case <-time.After(8 * time.Second):
+		fail("watch-does-not-stop", "Watch did not return after its context was cancelled")
+	}
+	return res
 }
 
 func c47ParseEnv(s string) (map[string]string, bool) {
@@ -605,6 +708,10 @@ func c47GenFile(c *hlib.Ctx, name string) string {
 
 func genC47(c *hlib.Ctx) {
 	r := c.R
+	// ---- the real Watch loop (oracle only; real time)
+	for i, n := 0, c.N(4, 40); i < n; i++ {
+		c.Do(fmt.Sprintf("o.rl.watch %d %d", r.Range(3, 8), r.Intn(1<<20)), true)
+	}
 	// ---- expandEnv alone
 	n := c.N(1500, 100000)
 	alphabet := []string{"$", "(", ")", "VERIF_A", "VERIF_B", "_V9", "X", "-", " ", "$(", "$(VERIF_A)", "$(UNSET)", "é", "\n"}
